@@ -27,6 +27,8 @@ type c18 struct {
 	lits   []*ast.FuncLit       // the worker closures
 	extract *types.Func
 	funcs  []*types.Func
+	flag     *c18flag
+	flagDone bool
 }
 
 func checkC18(c *Ctx) {
@@ -388,71 +390,224 @@ func (a *c18) r1() {
 	a.passFlag()
 }
 
-// passFlag: the variable set by workers to request another pass.
-func (a *c18) passFlag() {
+// c18flag: the another-pass flag — either a bool local of the spawning function captured by
+// the worker closures, or a bool field of a package type set through a method that worker
+// code calls.
+type c18flag struct {
+	obj     types.Object
+	isField bool
+	users   map[*types.Func]bool // field form: package functions that mention the field
+}
+
+func (f *c18flag) name() string { return f.obj.Name() }
+
+func (a *c18) findFlag() *c18flag {
+	if a.flagDone {
+		return a.flag
+	}
+	a.flagDone = true
 	c := a.c
-	efd := c.P.Decl(a.extract)
-	// flag: a bool local of the spawning function assigned `true` inside a worker closure
-	var flag types.Object
 	for _, l := range a.lits {
 		ast.Inspect(l.Body, func(n ast.Node) bool {
 			if as, ok := n.(*ast.AssignStmt); ok && len(as.Lhs) == 1 && len(as.Rhs) == 1 {
 				if v := constOf(a.info, as.Rhs[0]); v != nil && v.String() == "true" {
 					if o := objOf(a.info, as.Lhs[0]); o != nil && !(l.Pos() <= o.Pos() && o.Pos() <= l.End()) {
-						flag = o
+						if _, isSel := unparen(as.Lhs[0]).(*ast.SelectorExpr); !isSel {
+							a.flag = &c18flag{obj: o}
+						}
 					}
 				}
 			}
 			return true
 		})
 	}
+	if a.flag != nil {
+		return a.flag
+	}
+	// field form: worker code calls a zero-argument method whose body stores true into a bool field
+	var bodies []ast.Node
+	for _, l := range a.lits {
+		bodies = append(bodies, l.Body)
+	}
+	for _, fn := range a.funcs {
+		if a.worker[fn] {
+			bodies = append(bodies, c.P.Decl(fn).Body)
+		}
+	}
+	var field types.Object
+	for _, b := range bodies {
+		ast.Inspect(b, func(n ast.Node) bool {
+			call, ok := n.(*ast.CallExpr)
+			if !ok || len(call.Args) != 0 || field != nil {
+				return true
+			}
+			f := callee(a.info, call)
+			if f == nil || c.P.Decl(f) == nil || f.Type().(*types.Signature).Recv() == nil {
+				return true
+			}
+			ast.Inspect(c.P.Decl(f).Body, func(k ast.Node) bool {
+				if as, ok := k.(*ast.AssignStmt); ok && len(as.Lhs) == 1 && len(as.Rhs) == 1 {
+					if v := constOf(a.info, as.Rhs[0]); v != nil && v.String() == "true" {
+						if sel, ok := unparen(as.Lhs[0]).(*ast.SelectorExpr); ok {
+							if fv, ok := a.info.Uses[sel.Sel].(*types.Var); ok && fv.IsField() && a.dataField(sel) == nil {
+								field = fv
+							}
+						}
+					}
+				}
+				return true
+			})
+			return true
+		})
+	}
+	if field == nil {
+		return nil
+	}
+	fl := &c18flag{obj: field, isField: true, users: map[*types.Func]bool{}}
+	for _, fn := range a.funcs {
+		ast.Inspect(c.P.Decl(fn).Body, func(n ast.Node) bool {
+			if id, ok := n.(*ast.Ident); ok && a.info.Uses[id] == field {
+				fl.users[fn] = true
+			}
+			return true
+		})
+	}
+	a.flag = fl
+	return fl
+}
+
+// touches: n (function literals excluded) reads or writes the flag, directly or through one of
+// the flag type's methods.
+func (a *c18) touches(fl *c18flag, n ast.Node) (pos token.Pos) {
+	if n == nil {
+		return token.NoPos
+	}
+	ast.Inspect(n, func(m ast.Node) bool {
+		if pos != token.NoPos {
+			return false
+		}
+		switch x := m.(type) {
+		case *ast.FuncLit:
+			return false
+		case *ast.Ident:
+			if o := a.info.Uses[x]; o != nil && o == fl.obj {
+				pos = x.Pos()
+			}
+		case *ast.CallExpr:
+			if f := callee(a.info, x); f != nil && fl.users[f] {
+				pos = x.Pos()
+			}
+		}
+		return true
+	})
+	return pos
+}
+
+func (a *c18) isGroupCall(n ast.Node, which string) bool {
+	found := false
+	if n == nil {
+		return false
+	}
+	ast.Inspect(n, func(m ast.Node) bool {
+		if _, isLit := m.(*ast.FuncLit); isLit {
+			return false
+		}
+		if call, ok := m.(*ast.CallExpr); ok {
+			if f := callee(a.info, call); f != nil && f.Name() == which && f.Pkg() != nil && (strings.HasSuffix(f.Pkg().Path(), "errgroup") || f.Pkg().Path() == "sync") {
+				found = true
+			}
+		}
+		return !found
+	})
+	return found
+}
+
+// passFlag: the variable set by workers to request another pass.
+func (a *c18) passFlag() {
+	c := a.c
+	efd := c.P.Decl(a.extract)
 	cons := c.P.FuncName(a.extract) + "#pass-flag"
+	flag := a.findFlag()
 	if flag == nil {
 		c.Bad("C18.R1", cons, efd.Pos(), "workers never request another pass")
 		return
 	}
 	msg := ""
 	var pos token.Pos = efd.Pos()
-	for _, l := range a.lits {
-		a.locksetWalkFlag(l.Body, flag, func(p token.Pos, held bool) {
-			if !held && msg == "" {
-				msg = "the another-pass flag `" + flag.Name() + "` is written by a worker without holding a mutex: concurrent workers race on it"
-				pos = p
-			}
-		})
-	}
-	// spawner: between the first Go call and Wait, the flag must not be mentioned
-	var goPos, waitPos token.Pos
-	ast.Inspect(efd.Body, func(n ast.Node) bool {
-		if call, ok := n.(*ast.CallExpr); ok {
-			if f := callee(a.info, call); f != nil && f.Pkg() != nil && strings.HasSuffix(f.Pkg().Path(), "errgroup") {
-				if f.Name() == "Go" && goPos == token.NoPos {
-					goPos = call.Pos()
-				}
-				if f.Name() == "Wait" {
-					waitPos = call.End()
-				}
-			}
+	onWrite := func(p token.Pos, held bool) {
+		if !held && msg == "" {
+			msg = "the another-pass flag `" + flag.name() + "` is written by a worker without holding a mutex: concurrent workers race on it"
+			pos = p
 		}
-		return true
+	}
+	if flag.isField {
+		var us []*types.Func
+		for f := range flag.users {
+			us = append(us, f)
+		}
+		sort.Slice(us, func(i, j int) bool { return c.P.Decl(us[i]).Pos() < c.P.Decl(us[j]).Pos() })
+		for _, f := range us {
+			a.locksetWalkFlag(c.P.Decl(f).Body, flag.obj, onWrite)
+		}
+	} else {
+		for _, l := range a.lits {
+			a.locksetWalkFlag(l.Body, flag.obj, onWrite)
+		}
+	}
+	// spawner: whenever the spawning function touches the flag, no worker it started is still
+	// running (every Go is followed by a Wait on the way there)
+	waited := false
+	ast.Inspect(efd.Body, func(n ast.Node) bool {
+		if a.isGroupCall(n, "Wait") {
+			waited = true
+		}
+		return !waited
 	})
-	if waitPos == token.NoPos {
+	if !waited {
 		msg = "the spawning function never waits for the workers"
 	}
-	ast.Inspect(efd.Body, func(n ast.Node) bool {
-		if _, isLit := n.(*ast.FuncLit); isLit {
-			return false
+	cl := &FactsClient{}
+	check := func(n ast.Node, s Facts) {
+		if p := a.touches(flag, n); p != token.NoPos && !s["joined"] && msg == "" {
+			msg = "the spawning function touches `" + flag.name() + "` while workers are running (between Go and Wait)"
+			pos = p
 		}
-		if id, ok := n.(*ast.Ident); ok && objOf(a.info, id) == flag && id.Pos() > goPos && id.Pos() < waitPos && msg == "" {
-			msg = "the spawning function touches `" + flag.Name() + "` while workers are running (between Go and Wait)"
-			pos = id.Pos()
+	}
+	cl.OnStmt = func(n ast.Node, s Facts) Facts {
+		var scope ast.Node = n
+		if rs, isR := n.(*ast.RangeStmt); isR {
+			scope = rs.X
 		}
-		return true
-	})
-	if msg == "" {
-		c.OK("C18.R1", cons, efd.Pos(), "`%s` is written only under its mutex in workers and left alone by the spawner between Go and Wait", flag.Name())
-	} else {
+		check(scope, s)
+		if a.isGroupCall(scope, "Go") {
+			delete(s, "joined")
+		}
+		if a.isGroupCall(scope, "Wait") {
+			s["joined"] = true
+		}
+		return s
+	}
+	cl.OnBranch = func(cond ast.Expr, truth bool, s Facts) Facts {
+		if a.isGroupCall(cond, "Wait") {
+			s["joined"] = true
+		}
+		check(cond, s)
+		return s
+	}
+	cl.OnReturn = func(r *ast.ReturnStmt, s Facts) {
+		if r != nil {
+			check(r, s)
+		}
+	}
+	fl := &Flow[Facts]{C: cl, Info: a.info}
+	fl.Run(efd.Body, Facts{"joined": true})
+	switch {
+	case msg != "":
 		c.Bad("C18.R1", cons, pos, "%s", msg)
+	case len(fl.Unsupported) > 0:
+		c.Unk("C18.R1", cons, fl.Unsupported[0].Pos(), "unsupported control flow in the spawning function")
+	default:
+		c.OK("C18.R1", cons, efd.Pos(), "`%s` is written only under its mutex in workers and touched by the spawner only with all started workers joined", flag.name())
 	}
 }
 
@@ -472,7 +627,11 @@ func (a *c18) locksetWalkFlag(body *ast.BlockStmt, flag types.Object, report fun
 			}
 		case *ast.AssignStmt:
 			for _, l := range st.Lhs {
-				if objOf(a.info, l) == flag {
+				lo := objOf(a.info, l)
+				if sel, ok := unparen(l).(*ast.SelectorExpr); ok {
+					lo = a.info.Uses[sel.Sel]
+				}
+				if lo == flag {
 					held := false
 					for k := range s {
 						if strings.HasPrefix(k, "W:") {
@@ -680,100 +839,216 @@ func (a *c18) r3() {
 	c := a.c
 	n := 0
 	producers := map[*types.Func]bool{}
+	boolResult := func(fd *ast.FuncDecl, o types.Object) bool {
+		for _, r := range resultVars(a.info, fd.Type) {
+			if r != nil && r == o {
+				return true
+			}
+		}
+		return false
+	}
+	returnsBool := func(fn *types.Func) bool {
+		sig := fn.Type().(*types.Signature)
+		if sig.Results().Len() < 1 {
+			return false
+		}
+		b, ok := sig.Results().At(sig.Results().Len()-1).Type().Underlying().(*types.Basic)
+		return ok && b.Kind() == types.Bool
+	}
+	// (1) registration sites: after the store, every way out of the function reports it
+	//     (the bool result is set to true, or `return true`)
 	for _, fn := range a.funcs {
 		fd := c.P.Decl(fn)
-		res := resultVars(a.info, fd.Type)
 		perField := map[string]int{}
+		var sites []*ast.AssignStmt
 		ast.Inspect(fd.Body, func(nd ast.Node) bool {
-			blk, ok := nd.(*ast.BlockStmt)
+			as, ok := nd.(*ast.AssignStmt)
+			if !ok || len(as.Lhs) != 1 {
+				return true
+			}
+			ix, ok := unparen(as.Lhs[0]).(*ast.IndexExpr)
 			if !ok {
 				return true
 			}
-			for _, st := range blk.List {
-				as, ok := st.(*ast.AssignStmt)
-				if !ok || len(as.Lhs) != 1 {
-					continue
+			if f := a.dataField(ix.X); f != nil && a.isDependent(f) {
+				sites = append(sites, as)
+			}
+			return true
+		})
+		for _, as := range sites {
+			ix := unparen(as.Lhs[0]).(*ast.IndexExpr)
+			f := a.dataField(ix.X)
+			n++
+			perField[f.Name()]++
+			cons := fmt.Sprintf("%s#register(%s)", c.P.FuncName(fn), f.Name())
+			if perField[f.Name()] > 1 {
+				cons = fmt.Sprintf("%s#%d", cons, perField[f.Name()])
+			}
+			okAll := true
+			cl := &FactsClient{}
+			cl.OnStmt = func(nd ast.Node, st Facts) Facts {
+				if nd == ast.Node(as) {
+					st["pending"] = true
 				}
-				ix, ok := unparen(as.Lhs[0]).(*ast.IndexExpr)
-				if !ok {
-					continue
+				if as2, ok := nd.(*ast.AssignStmt); ok && len(as2.Lhs) == 1 && len(as2.Rhs) == 1 {
+					if v := constOf(a.info, as2.Rhs[0]); v != nil && v.String() == "true" && boolResult(fd, objOf(a.info, as2.Lhs[0])) {
+						st["reported"] = true
+					}
 				}
-				f := a.dataField(ix.X)
-				if f == nil || !a.isDependent(f) {
-					continue
+				return st
+			}
+			cl.OnReturn = func(r *ast.ReturnStmt, st Facts) {
+				// "pending" is a must-fact: it only survives joins when every path registered; use the
+				// complementary encoding below instead
+			}
+			// complementary encoding: "clean" holds when no unreported registration is outstanding
+			cl.OnStmt = func(nd ast.Node, st Facts) Facts {
+				if nd == ast.Node(as) {
+					delete(st, "clean")
 				}
-				n++
-				perField[f.Name()]++
-				cons := fmt.Sprintf("%s#register(%s)", c.P.FuncName(fn), f.Name())
-				if perField[f.Name()] > 1 {
-					cons = fmt.Sprintf("%s#%d", cons, perField[f.Name()])
+				if as2, ok := nd.(*ast.AssignStmt); ok && len(as2.Lhs) == 1 && len(as2.Rhs) == 1 {
+					if v := constOf(a.info, as2.Rhs[0]); v != nil && v.String() == "true" && boolResult(fd, objOf(a.info, as2.Lhs[0])) {
+						st["clean"] = true
+					}
 				}
-				// same block: <boolResult> = true
-				okPass := false
-				for _, st2 := range blk.List {
-					if as2, ok := st2.(*ast.AssignStmt); ok && len(as2.Lhs) == 1 && len(as2.Rhs) == 1 {
-						if v := constOf(a.info, as2.Rhs[0]); v != nil && v.String() == "true" {
-							o := objOf(a.info, as2.Lhs[0])
-							for _, r := range res {
-								if r != nil && r == o {
-									okPass = true
-								}
-							}
+				return st
+			}
+			cl.OnReturn = func(r *ast.ReturnStmt, st Facts) {
+				if st["clean"] {
+					return
+				}
+				if r != nil && len(r.Results) > 0 {
+					last := r.Results[len(r.Results)-1]
+					if v := constOf(a.info, last); v != nil && v.String() == "true" {
+						return
+					}
+				}
+				okAll = false
+			}
+			fl := &Flow[Facts]{C: cl, Info: a.info}
+			fl.Run(fd.Body, Facts{"clean": true})
+			switch {
+			case len(fl.Unsupported) > 0:
+				c.Unk("C18.R3", cons, as.Pos(), "unsupported control flow")
+			case okAll && returnsBool(fn):
+				producers[fn] = true
+				c.OK("C18.R3", cons, as.Pos(), "the registration is reported to the caller on every path (bool result true)")
+			default:
+				c.Bad("C18.R3", cons, as.Pos(), "`%s` registers a new dependency without requesting another pass: the referenced object is only picked up if some other object happens to trigger a re-scan", src(as))
+			}
+		}
+	}
+	// (2) callers: a true result of a producer is turned into a pass request — by setting a bool (the
+	//     caller's own result, which makes the caller a producer in turn, or the pass flag), by
+	//     returning the call, or through a method that sets a bool field
+	setsFlag := func(body ast.Node, fd *ast.FuncDecl) (sets bool, own bool) {
+		ast.Inspect(body, func(m ast.Node) bool {
+			switch x := m.(type) {
+			case *ast.AssignStmt:
+				if len(x.Rhs) == 1 && len(x.Lhs) == 1 {
+					if v := constOf(a.info, x.Rhs[0]); v != nil && v.String() == "true" {
+						sets = true
+						if boolResult(fd, objOf(a.info, x.Lhs[0])) {
+							own = true
 						}
 					}
 				}
-				if okPass {
-					producers[fn] = true
-					c.OK("C18.R3", cons, as.Pos(), "registration sets the another-pass result")
-				} else {
-					c.Bad("C18.R3", cons, as.Pos(), "`%s` registers a new dependency without requesting another pass: the referenced object is only picked up if some other object happens to trigger a re-scan", src(as))
+			case *ast.ReturnStmt:
+				if len(x.Results) > 0 {
+					if v := constOf(a.info, x.Results[len(x.Results)-1]); v != nil && v.String() == "true" {
+						sets, own = true, true
+					}
+				}
+			case *ast.CallExpr:
+				if f := callee(a.info, x); f != nil && c.P.Decl(f) != nil && len(x.Args) == 0 {
+					ast.Inspect(c.P.Decl(f).Body, func(k ast.Node) bool {
+						if as, ok := k.(*ast.AssignStmt); ok && len(as.Rhs) == 1 && len(as.Lhs) == 1 {
+							if v := constOf(a.info, as.Rhs[0]); v != nil && v.String() == "true" {
+								if _, isSel := unparen(as.Lhs[0]).(*ast.SelectorExpr); isSel {
+									sets = true
+								}
+							}
+						}
+						return true
+					})
 				}
 			}
 			return true
 		})
+		return
 	}
-	// callers: the result of a producer is used as an if-condition whose body requests the pass
-	var ps []*types.Func
-	for f := range producers {
-		ps = append(ps, f)
-	}
-	sort.Slice(ps, func(i, j int) bool { return c.P.Decl(ps[i]).Pos() < c.P.Decl(ps[j]).Pos() })
-	for _, prod := range ps {
-		calls := 0
-		for _, fn := range a.funcs {
-			fd := c.P.Decl(fn)
-			ast.Inspect(fd.Body, func(nd ast.Node) bool {
-				call, ok := nd.(*ast.CallExpr)
-				if !ok || callee(a.info, call) != prod {
-					return true
-				}
-				calls++
-				cons := fmt.Sprintf("%s#uses(%s)", c.P.FuncName(fn), prod.Name())
-				path := enclosing(fd.Body, call)
-				used := false
-				if len(path) >= 2 {
-					if is, ok := path[len(path)-2].(*ast.IfStmt); ok && unparen(is.Cond) == ast.Expr(call) {
-						// the body sets a bool to true
-						ast.Inspect(is.Body, func(m ast.Node) bool {
-							if as, ok := m.(*ast.AssignStmt); ok && len(as.Rhs) == 1 {
-								if v := constOf(a.info, as.Rhs[0]); v != nil && v.String() == "true" {
-									used = true
+	checked := map[*types.Func]bool{}
+	for changed := true; changed; {
+		changed = false
+		var ps []*types.Func
+		for f := range producers {
+			if !checked[f] {
+				ps = append(ps, f)
+			}
+		}
+		sort.Slice(ps, func(i, j int) bool { return c.P.Decl(ps[i]).Pos() < c.P.Decl(ps[j]).Pos() })
+		for _, prod := range ps {
+			checked[prod] = true
+			calls := 0
+			for _, fn := range a.funcs {
+				fd := c.P.Decl(fn)
+				sc := newFnScope(a.info, fd.Body)
+				ast.Inspect(fd.Body, func(nd ast.Node) bool {
+					call, ok := nd.(*ast.CallExpr)
+					if !ok || callee(a.info, call) != prod {
+						return true
+					}
+					calls++
+					cons := fmt.Sprintf("%s#uses(%s)", c.P.FuncName(fn), prod.Name())
+					path := enclosing(fd.Body, call)
+					used, relays := false, false
+					if len(path) >= 2 {
+						switch par := path[len(path)-2].(type) {
+						case *ast.IfStmt:
+							if unparen(par.Cond) == ast.Expr(call) {
+								used, relays = setsFlag(par.Body, fd)
+							}
+						case *ast.ReturnStmt:
+							if returnsBool(fn) {
+								used, relays = true, true
+							}
+						case *ast.AssignStmt:
+							// x = prod(...); later `if x { … }` or x is the function's own bool result
+							if len(par.Lhs) >= 1 {
+								xo := objOf(a.info, par.Lhs[len(par.Lhs)-1])
+								if xo != nil && boolResult(fd, xo) {
+									used, relays = true, true
+								}
+								if xo != nil && !used {
+									ast.Inspect(fd.Body, func(k ast.Node) bool {
+										if is, ok := k.(*ast.IfStmt); ok && objOf(a.info, is.Cond) == xo && is.Pos() > par.Pos() {
+											if s2, o2 := setsFlag(is.Body, fd); s2 {
+												used, relays = true, o2
+											}
+										}
+										return true
+									})
 								}
 							}
-							return true
-						})
+						}
 					}
-				}
-				if used {
-					c.OK("C18.R3", cons, call.Pos(), "the another-pass result is turned into a pass request")
-				} else {
-					c.Bad("C18.R3", cons, call.Pos(), "the another-pass result of %s is discarded: newly registered dependencies are never fetched", prod.Name())
-				}
-				return true
-			})
-		}
-		if calls == 0 {
-			c.Unk("C18.R3", "encoding/osm#uses("+prod.Name()+")", token.NoPos, "never called")
+					_ = sc
+					if used {
+						if relays && returnsBool(fn) && !producers[fn] {
+							producers[fn] = true
+							changed = true
+						}
+						c.OK("C18.R3", cons, call.Pos(), "the another-pass result is turned into a pass request")
+					} else {
+						c.Bad("C18.R3", cons, call.Pos(), "the another-pass result of %s is discarded: newly registered dependencies are never fetched", prod.Name())
+					}
+					return true
+				})
+			}
+			// calls from the worker closures / function literals are inside a.funcs' bodies already
+			if calls == 0 {
+				c.Unk("C18.R3", "encoding/osm#uses("+prod.Name()+")", token.NoPos, "never called")
+			}
 		}
 	}
 	if n == 0 {
@@ -999,49 +1274,19 @@ func (a *c18) passBarrier() {
 	c := a.c
 	efd := c.P.Decl(a.extract)
 	name := c.P.FuncName(a.extract)
-	isGroupCall := func(n ast.Node, which string) bool {
-		found := false
-		ast.Inspect(n, func(m ast.Node) bool {
-			if _, isLit := m.(*ast.FuncLit); isLit {
-				return false
-			}
-			if call, ok := m.(*ast.CallExpr); ok {
-				if f := callee(a.info, call); f != nil && f.Name() == which && f.Pkg() != nil && (strings.HasSuffix(f.Pkg().Path(), "errgroup") || f.Pkg().Path() == "sync") {
-					found = true
-				}
-			}
-			return !found
-		})
-		return found
-	}
-	// the flag (as in passFlag)
-	var flag types.Object
-	for _, l := range a.lits {
-		ast.Inspect(l.Body, func(n ast.Node) bool {
-			if as, ok := n.(*ast.AssignStmt); ok && len(as.Lhs) == 1 && len(as.Rhs) == 1 {
-				if v := constOf(a.info, as.Rhs[0]); v != nil && v.String() == "true" {
-					if o := objOf(a.info, as.Lhs[0]); o != nil && !(l.Pos() <= o.Pos() && o.Pos() <= l.End()) {
-						flag = o
-					}
-				}
-			}
-			return true
-		})
-	}
+	isGroupCall := a.isGroupCall
+	flag := a.findFlag()
 	if flag == nil {
 		return // reported by passFlag
 	}
+	// the pass loop: the loop of the spawning function that starts workers and whose continuation
+	// depends on the flag (in its condition, or in an exit test inside its body)
 	var loop *ast.ForStmt
 	ast.Inspect(efd.Body, func(n ast.Node) bool {
-		if fs, ok := n.(*ast.ForStmt); ok && fs.Cond != nil && loop == nil {
-			mentions := false
-			ast.Inspect(fs.Cond, func(m ast.Node) bool {
-				if id, ok := m.(*ast.Ident); ok && objOf(a.info, id) == flag {
-					mentions = true
-				}
-				return true
-			})
-			if mentions {
+		if fs, ok := n.(*ast.ForStmt); ok && loop == nil {
+			if fs.Cond != nil && a.touches(flag, fs.Cond) != token.NoPos {
+				loop = fs
+			} else if fs.Cond == nil && isGroupCall(fs.Body, "Go") && a.touches(flag, fs.Body) != token.NoPos {
 				loop = fs
 			}
 		}
@@ -1049,7 +1294,7 @@ func (a *c18) passBarrier() {
 	})
 	cons := name + "#pass-barrier"
 	if loop == nil {
-		c.Unk("C18.R6", cons, efd.Pos(), "no loop conditioned on the another-pass flag `%s` found", flag.Name())
+		c.Unk("C18.R6", cons, efd.Pos(), "no loop conditioned on the another-pass flag `%s` found", flag.name())
 	} else {
 		// workers spawned before the loop keep running across iterations
 		spawnedBefore := false
@@ -1084,6 +1329,24 @@ func (a *c18) passBarrier() {
 				ok = false
 			}
 		}
+		onStmt, onBranch := cl.OnStmt, cl.OnBranch
+		cl.OnStmt = func(n ast.Node, s Facts) Facts {
+			var scope ast.Node = n
+			if rs, isR := n.(*ast.RangeStmt); isR {
+				scope = rs.X
+			}
+			if a.touches(flag, scope) != token.NoPos && !s["joined"] {
+				ok = false
+			}
+			return onStmt(n, s)
+		}
+		cl.OnBranch = func(cond ast.Expr, truth bool, s Facts) Facts {
+			s = onBranch(cond, truth, s)
+			if a.touches(flag, cond) != token.NoPos && !s["joined"] {
+				ok = false
+			}
+			return s
+		}
 		init := Facts{}
 		if !spawnedBefore {
 			init["joined"] = true
@@ -1094,9 +1357,9 @@ func (a *c18) passBarrier() {
 		case len(fl.Unsupported) > 0:
 			c.Unk("C18.R6", cons, fl.Unsupported[0].Pos(), "unsupported control flow in the pass loop")
 		case ok:
-			c.OK("C18.R6", cons, loop.Pos(), "every iteration ends after Wait has joined the workers it started: `%s` is read and reset with no worker running", flag.Name())
+			c.OK("C18.R6", cons, loop.Pos(), "every iteration ends after Wait has joined the workers it started: `%s` is read and reset with no worker running", flag.name())
 		default:
-			c.Unk("C18.R6", cons, loop.Pos(), "an iteration of the pass loop can end — and `%s` be read and reset for the next pass — while workers that may still set it are running (they are not joined by Wait inside the iteration); whether some other hand-shake makes every worker's last store visible first is not decided, and if it does not, a request for another pass is lost and the result is not reference-closed", flag.Name())
+			c.Unk("C18.R6", cons, loop.Pos(), "an iteration of the pass loop can end — and `%s` be read and reset for the next pass — while workers that may still set it are running (they are not joined by Wait inside the iteration); whether some other hand-shake makes every worker's last store visible first is not decided, and if it does not, a request for another pass is lost and the result is not reference-closed", flag.name())
 		}
 	}
 	// (b) unconditional dispatch
@@ -1108,23 +1371,37 @@ func (a *c18) passBarrier() {
 		var guarded *ast.CallExpr
 		var guard *ast.IfStmt
 		n := 0
-		ast.Inspect(l.Body, func(m ast.Node) bool {
-			call, ok := m.(*ast.CallExpr)
-			if !ok {
-				return true
-			}
-			f := callee(a.info, call)
-			if f == nil || c.P.Decl(f) == nil || !strings.HasPrefix(f.Name(), "process") {
-				return true
-			}
-			n++
-			for _, anc := range enclosing(l.Body, call) {
-				if is, ok := anc.(*ast.IfStmt); ok && !containsNode(is.Cond, call) && (is.Init == nil || !containsNode(is.Init, call)) && guarded == nil {
-					guarded, guard = call, is
+		seenBody := map[*types.Func]bool{}
+		var scanBody func(body *ast.BlockStmt)
+		scanBody = func(body *ast.BlockStmt) {
+			ast.Inspect(body, func(m ast.Node) bool {
+				call, ok := m.(*ast.CallExpr)
+				if !ok {
+					return true
 				}
-			}
-			return true
-		})
+				f := callee(a.info, call)
+				if f == nil || c.P.Decl(f) == nil {
+					return true
+				}
+				if !strings.HasPrefix(f.Name(), "process") {
+					// a helper the worker body was moved into
+					if seenBody[f] || !a.reachesProcess(f, map[*types.Func]bool{}) {
+						return true
+					}
+					seenBody[f] = true
+					scanBody(c.P.Decl(f).Body)
+				} else {
+					n++
+				}
+				for _, anc := range enclosing(body, call) {
+					if is, ok := anc.(*ast.IfStmt); ok && !containsNode(is.Cond, call) && (is.Init == nil || !containsNode(is.Init, call)) && guarded == nil {
+						guarded, guard = call, is
+					}
+				}
+				return true
+			})
+		}
+		scanBody(l.Body)
 		switch {
 		case n == 0:
 			c.Unk("C18.R6", dcons, l.Pos(), "the worker calls no process function")
@@ -1134,4 +1411,26 @@ func (a *c18) passBarrier() {
 			c.OK("C18.R6", dcons, l.Pos(), "%d process calls, each reached for every object of its type in every pass", n)
 		}
 	}
+}
+
+// reachesProcess: f (a package function that is not itself a process function) calls one,
+// directly or through further helpers.
+func (a *c18) reachesProcess(f *types.Func, seen map[*types.Func]bool) bool {
+	fd := a.c.P.Decl(f)
+	if fd == nil || seen[f] || a.c.P.DeclPkg(f) != a.p {
+		return false
+	}
+	seen[f] = true
+	found := false
+	ast.Inspect(fd.Body, func(m ast.Node) bool {
+		if call, ok := m.(*ast.CallExpr); ok && !found {
+			if g := callee(a.info, call); g != nil && a.c.P.Decl(g) != nil {
+				if strings.HasPrefix(g.Name(), "process") || a.reachesProcess(g, seen) {
+					found = true
+				}
+			}
+		}
+		return !found
+	})
+	return found
 }
